@@ -20,6 +20,7 @@ type simBlob struct {
 	model []*MV
 	nd    bool
 	mode  int
+	lent  bool // handed to Deserialize as it is (not as a private copy): it must still hold the same document later
 }
 
 type serState struct {
@@ -181,6 +182,12 @@ func runHistSerialBody(r *Run) {
 			var out *simdjson.ParsedJson
 			var derr error
 			in := append([]byte(nil), bl.b...)
+			keep := c.Intn("deskeep", 2) == 0
+			if keep {
+				// the caller keeps its blob (a file mapping, a cache entry) and reads it again later
+				in = bl.b
+				bl.lent = true
+			}
 			err := safely(func() error { out, derr = st.s.Deserialize(in, dst); return nil })
 			if err != nil {
 				walkerFail(r, "deserialize", what, err)
@@ -196,6 +203,9 @@ func runHistSerialBody(r *Run) {
 			st.uses++
 			// scribble over the input: the result must not alias the blob
 			for i := range in {
+				if keep {
+					break
+				}
 				in[i] = 0xAA
 			}
 			no := &simObj{pj: out, model: cloneRoots(bl.model), nd: bl.nd, copy: true, origin: what + " deserialize"}
@@ -234,6 +244,24 @@ func runHistSerialBody(r *Run) {
 				readBack(r, o, bInto, fmt.Sprintf("after the history settled, object from %s; history: %v", o.origin, trace), nil)
 			}
 		}
+	}
+	// blobs the history handed to Deserialize as they were are the caller's: they still hold their documents
+	for i, bl := range blobs {
+		if !bl.lent || r.failed() {
+			continue
+		}
+		var out *simdjson.ParsedJson
+		var derr error
+		if err := safely(func() error { out, derr = simdjson.NewSerializer().Deserialize(bl.b, nil); return nil }); err != nil {
+			walkerFail(r, "deserialize", fmt.Sprintf("blob #%d read again after the history", i), err)
+			break
+		}
+		if derr != nil {
+			r.violate("deserialize", "error-later:"+msgClass(derr.Error()), fmt.Sprintf("blob #%d (mode %d) no longer deserializes after the history %v: %v", i, bl.mode, trace, derr))
+			break
+		}
+		readBack(r, &simObj{pj: out, model: bl.model, nd: bl.nd, copy: true, origin: "blob read again"}, bInto, fmt.Sprintf("blob #%d (mode %d) read again with a fresh Serializer after the history %v", i, bl.mode, trace), nil)
+		r.stat("blobs_read_again_after_history", 1)
 	}
 	r.Res.Sample["ops"] = trace
 	r.Res.NonTrivial = shared >= 1
@@ -826,7 +854,47 @@ func RunHistAlias(r *Run) {
 	nops := 1 + c.Intn("nops", 8)
 	for k := 0; k < nops && !r.failed(); k++ {
 		what := fmt.Sprintf("op #%d", k)
-		switch c.Pick("aop", 3, 3, 3, 2, 2) {
+		switch c.Pick("aop", 3, 3, 3, 2, 2, 2) {
+		case 5: // Deserialize another document into one of the objects, in place
+			var live []*simObj
+			for _, x := range objs {
+				if x.pj != nil {
+					live = append(live, x)
+				}
+			}
+			if len(live) == 0 {
+				continue
+			}
+			x := live[c.Intn("deserobj", len(live))]
+			snd := c.Intn("desernd", 2) == 1
+			src := parseNew(r, genHistDoc(r, snd, c.Intn("deserbig", 6) == 5), parseCfg{Copy: true, ND: snd}, what+" source of the blob")
+			if r.failed() {
+				break
+			}
+			if src == nil {
+				continue
+			}
+			var blob []byte
+			var out *simdjson.ParsedJson
+			var derr error
+			if err := safely(func() error {
+				blob = sers[0].Serialize(nil, *src.pj)
+				out, derr = sers[0].Deserialize(blob, x.pj)
+				return nil
+			}); err != nil {
+				walkerFail(r, "deserialize", what, err)
+				break
+			}
+			if derr != nil {
+				r.violate("deserialize", "error", fmt.Sprintf("%s: Deserialize into '%s' failed: %v", what, x.origin, derr))
+				break
+			}
+			// the refilled object keeps whatever memory it had (possibly the caller's input buffer): it is treated
+			// like a no-copy result of that buffer; clones taken from it must be independent of everything
+			x.pj, x.model, x.nd, x.copy, x.invalid, x.edited = out, cloneRoots(src.model), src.nd, false, false, false
+			x.origin += " (refilled by Deserialize)"
+			trace = append(trace, "deserialize into '"+x.origin+"'")
+			interesting = true
 		case 4: // hand one of the objects to Parse as reuse: everything else must stay what it was
 			var live []*simObj
 			for _, x := range objs {
